@@ -272,6 +272,23 @@ impl<F: Write + Seek> Allocator<F> {
     /// Adds a new sector to the FAT chain at the end of the file, and updates
     /// the FAT and DIFAT accordingly.
     fn append_fat_sector(&mut self) -> io::Result<()> {
+        // If one of the writes fails, forget the new sectors again.  The
+        // tables in memory must not get ahead of the file: the next allocation
+        // would skip the steps that did not happen, and the header would never
+        // list the new FAT sector.  Trying again repeats every write.
+        let fat_len = self.fat.len();
+        let difat_len = self.difat.len();
+        let num_difat_sectors = self.difat_sector_ids.len();
+        let result = self.try_append_fat_sector();
+        if result.is_err() {
+            self.fat.truncate(fat_len);
+            self.difat.truncate(difat_len);
+            self.difat_sector_ids.truncate(num_difat_sectors);
+        }
+        result
+    }
+
+    fn try_append_fat_sector(&mut self) -> io::Result<()> {
         // Add a new FAT sector to the end of the file.
         let new_fat_sector_id = self.fat.len() as u32;
         self.sectors.init_sector(new_fat_sector_id, SectorInit::Fat)?;
